@@ -71,3 +71,54 @@ pub fn main_with(entries: Vec<entry::Entry>, cat: mc_desc::Catalogue) -> i32 {
         }
     }
 }
+
+#[cfg(test)]
+mod tests {
+    use crate::doc::*;
+    use crate::rec::Script;
+
+    #[test]
+    fn reference_distance_and_names() {
+        assert_eq!(crate::pure::damerau_levenshtein("ca", "abc"), 2);
+        assert_eq!(crate::pure::damerau_levenshtein("highglht", "highlight"), 2);
+        assert_eq!(crate::reference::camel("attributes_to_retrieve"), "attributesToRetrieve");
+        assert_eq!(crate::reference::camel("BetaTwo"), "betaTwo");
+        assert!(crate::reference::self_check().is_ok());
+    }
+
+    #[test]
+    fn documents_round_trip_through_the_replay_encoding() {
+        let d = Doc::Obj(vec![
+            ("b".into(), Doc::Seq(vec![Doc::Int(u64::MAX), Doc::Neg(i64::MIN), Doc::Float(-0.0), Doc::Float(f64::NAN)])),
+            ("a".into(), Doc::Null),
+            ("b".into(), Doc::s("dup")),
+        ]);
+        let back = crate::evidence::doc_from_tagged(&crate::evidence::doc_to_tagged(&d));
+        assert_eq!(back.text(), d.text());
+        assert!(!d.is_plain());
+        assert_eq!(d.canonical().text(), r#"{"a":null,"b":"dup"}"#);
+    }
+
+    #[test]
+    fn scripts_and_small_documents() {
+        let s = Script { prefix: vec![false, true, false], default: true };
+        assert_eq!(Script::parse(&s.text()), s);
+        let docs = crate::space::small_docs(2, &["a".into(), "b".into()], &[Doc::Null, Doc::Int(1)]);
+        // size 1: 2 leaves + [] + {} ; size 2: [x] ×4 , {a:x} ×4, {b:x} ×4
+        assert_eq!(docs.len(), 4 + 12);
+    }
+
+    #[test]
+    fn scalar_specification() {
+        use crate::scalar::*;
+        use mc_desc::Scalar;
+        assert_eq!(int_bounds(true, 8), ("-128".to_string(), "127".to_string()));
+        assert_eq!(int_bounds(false, 128).1, "340282366920938463463374607431768211455");
+        assert!(matches!(scalar_expect(Scalar::NzI8, &Doc::Neg(0)), ScalarExpect::Domain(Domain::Zero)));
+        assert!(!domain_message_ok(&Domain::Zero, "value: `0` is too small to be deserialized, minimum value authorized is `-128`"));
+        assert!(domain_message_ok(&Domain::Zero, "a non-zero integer value higher than `-128` was expected, but found a zero"));
+        // 2^60 + 2^36 + 1 rounds up to 2^60 + 2^37 in one step
+        let v = (1u64 << 60) + (1 << 36) + 1;
+        assert_eq!(to_f32_ref(&Doc::Int(v)), ((1u64 << 60) + (1 << 37)) as f32);
+    }
+}
